@@ -6,7 +6,7 @@ import random
 
 import vlib
 
-ALL_FIXED = '{"F3","F4","F5","F6","F8"}'
+ALL_FIXED = '{"F3","F4","F5","F6","F8","F18"}'
 
 # concrete problems the abstract histories are run on: (geometry, problem, alpha, beta, kappa_eps, delta_e, alpha_jump, DirBC)
 BASES = [
@@ -36,7 +36,7 @@ def gen_cfg(name, maxcalls, fixed=ALL_FIXED, settable=None, maxiter="{0, 2, 30}"
         f.write("SPECIFICATION Spec\nCONSTANTS\n  FIXED = %s\n  MaxCalls = %d\n  MaxIterDom = %s\n  ExtDom = %s\n  LDom = {2, 3}\n"
                 "  MiscDom = %s\n  Settable = %s\n  GenHist = %s\n" % (fixed, maxcalls, maxiter, ext, misc, settable,
                                                                      "TRUE" if gen else "FALSE"))
-        inv = ["ModeAgrees", "StartIsData", "StatsFresh", "StatsDefined", "HistoriesOwn", "StopTruth", "RejectOrRun"] if invariants else []
+        inv = ["ModeAgrees", "StartIsData", "StatsFresh", "StatsDefined", "HistoriesOwn", "StopTruth", "RejectOrRun", "TimingsOwn"] if invariants else []
         if gen:
             inv.append("GenEmit")
             f.write("CONSTRAINT GenConstraint\n")
@@ -121,7 +121,7 @@ def validate_trace(tpath, label):
         f.write("SPECIFICATION TraceSpec\nCONSTANTS\n  FIXED = %s\n  MaxCalls = 1000000\n  MaxIterDom = {0,2,30,150}\n  ExtDom = {0,1,2,3}\n"
                 "  LDom = {2,3,4,5,6}\n  MiscDom <- TraceMisc\n  Settable = {}\n  GenHist = FALSE\n"
                 "CONSTRAINT Progress\n"
-                "INVARIANTS ModeAgrees StartIsData StatsDefined HistoriesOwn StopTruth RejectOrRun NotAccepted\n" % ALL_FIXED)
+                "INVARIANTS ModeAgrees StartIsData StatsDefined HistoriesOwn StopTruth RejectOrRun TimingsOwn NotAccepted\n" % ALL_FIXED)
     r = vlib.tlc("TraceSolver", cfg, workers=1, env={"TRACE": tpath}, tag="trace" + label, timeout=1800, heap="8g")
     prog = 0
     for line in r.out.splitlines():
